@@ -1220,6 +1220,9 @@ func (c *Context) quantize(d, v *Decimal, exp int32) Condition {
 			}
 		} else {
 			nc := c.WithPrecision(uint32(p))
+			// Only the digits are rounded here; the exponent is set below, so
+			// the context's own MinExponent must not make the value subnormal.
+			nc.MinExponent = MinExponent
 
 			// The idea here is that the resulting d.Exponent after rounding will be 0. We
 			// have a number of, say, 5 digits, but p (our precision) above is set at, say,
